@@ -273,7 +273,8 @@ class Case:
         opt = lambda x: None if x == "-" else int(x)
         return {"present": f[0] == "1", "status": f[1], "activeDays": int(f[2]), "emitDays": int(f[3]), "start": int(f[4]),
                 "end": opt(f[5]), "theoryEnd": int(f[6]), "mitDays": int(f[7]), "tagged": f[8] == "1", "by": f[9],
-                "initDetect": opt(f[10]), "initDetectBy": opt(f[11]), "cov": f[12]}
+                "initDetect": opt(f[10]), "initDetectBy": opt(f[11]), "cov": f[12],
+                "measured": None if f[13] == "-" else Fraction(f[13]), "estDays": int(f[14])}
 
     # -- comparison ------------------------------------------------------------------------------
     def compare(self, rows, recs):
@@ -289,6 +290,14 @@ class Case:
 
         def kg(file_val, scaled):
             return abs(Fraction(file_val or "0") - KG * Fraction(scaled, RATE_SCALE)) <= Fraction(1, 50000)
+
+        def meas_ok(file_val, q):
+            """measured rate: model value in hundredths of 1/RATE_SCALE g/s; the file shows 5 decimals"""
+            if q is None:
+                return file_val in ("", None)
+            if file_val in ("", None):
+                return False
+            return abs(Fraction(file_val) - q / (100 * RATE_SCALE)) <= Fraction(1, 100000)
 
         def count(file_val, n):
             if n is None:
@@ -367,6 +376,8 @@ class Case:
                    ("Mitigated Emissions (Kg Methane)", kg(row["Mitigated Emissions (Kg Methane)"], r["mitDays"] * rate), r["mitDays"]),
                    ('"True" Volume Emitted (Kg Methane)', kg(row['"True" Volume Emitted (Kg Methane)'], r["emitDays"] * rate), r["emitDays"]),
                    ('"True" Rate (g/s)', Fraction(row['"True" Rate (g/s)']) == Fraction(rate, RATE_SCALE), rate),
+                   ("Estimated Days Active", count(row["Estimated Days Active"], r["estDays"]), r["estDays"]),
+                   ('"Measured" Rate (g/s)', meas_ok(row['"Measured" Rate (g/s)'], r["measured"]), r["measured"]),
                    ("Initially Detected By", row["Initially Detected By"] == idb, idb),
                    ("Initially Detected Date", res.day_index(row["Initially Detected Date"]) == r["initDetect"], r["initDetect"])]
             if e["repairable"]:
@@ -393,7 +404,7 @@ TS_COLUMNS = ["New Leaks", "Active Leaks", "Leaks Repaired", "Leaks Naturally Re
               "Daily Non-Mitigable Emissions (Kg Methane)", "Daily Cost ($)", "Daily Repair Cost ($)",
               "Daily Natural Repair Cost ($)", "<m> Deployment Cost ($)", "<m> Sites flagged for Follow-Up",
               "<m> Leaks tagged for repair", "<m> Sites Visited", "<m> Travel Time (Minutes)", "<m> Survey Time (Minutes)"]
-REC_COLUMNS = ["Status", "Days Active", "Days Emitting", "Date Began", "Date Repaired or Expired", "Theoretical End Date",
+REC_COLUMNS = ["Status", "Days Active", "Days Emitting", "Estimated Days Active", '"Measured" Rate (g/s)', "Date Began", "Date Repaired or Expired", "Theoretical End Date",
                "Mitigated Emissions (Kg Methane)", '"True" Volume Emitted (Kg Methane)', '"True" Rate (g/s)',
                "Initially Detected By", "Initially Detected Date", "Tagged", "Tagged By", "Recorded", "Recorded By",
                "Repairable", "Site ID", "Equipment", "Component", "Emissions ID"]
